@@ -292,8 +292,16 @@ def check(ctx):
         r3.bad(V(r3.id, "<anchor>", "missing:compute_parameter_name", "anchor not found"))
     else:
         paths = ev.fn_paths(cpn, None, lambda n: None)
-        okp = len(paths) == 3 and len(paths[0][0]) == 1 and "not(" not in paths[0][0][0] and paths[0][1][0] in ("var", "maphit") \
-            and paths[1][1][0] == "call" and paths[2][1][0] == "call" and paths[1][0][0].startswith("not(") and all(c.startswith("not(") for c in paths[2][0])
+        from svlib import select_path
+        from srclib import pat_bindings as _pb
+        prm = [b_ for p_ in cpn.sig["params"] if not p_.get("self") for b_ in _pb(p_["pat"])]
+        okp = len(prm) >= 3
+        if okp:
+            tb = {(rn, al): select_path(paths, {prm[1]: rn, prm[2]: al}) for rn in ("Some", "None") for al in ("Some", "None")}
+            okp = all(tb[k_] is not None for k_ in tb) \
+                and all(tb[("Some", al)][1][0] in ("var", "maphit") for al in ("Some", "None")) \
+                and all(tb[("None", al)][1][0] == "call" and tb[("None", al)][1][1] == "apply_naming_convention" for al in ("Some", "None")) \
+                and tb[("None", "Some")][1] != tb[("None", "None")][1]
         if okp:
             r3.ok("rename ▷ rename_all ▷ default")
         else:
